@@ -165,6 +165,41 @@ def jobs_C19(tier, scale):
             graph_job("C19", "dij", _classes(["DW", "UW"]), tier, scale, 1500, 40000, "random weighted graphs n<=30, weights 0..4 (ties and zero-weight cycles)", nmax=30, xmax=5, extra="wmode int", max_size=100)]
 
 
+def jobs_C13(tier, scale):
+    cl = _classes(["DS", "US", "DL", "UL"], ["int", "double", "string", "struct"])
+    tf = dict(engine="pbt", executor="text", config="san", gen="textfile", cfg=dict(classes="DS:none;US:none;DL:string;UL:string;DL:int;UL:int", modes="indexfile;namefile"),
+              cases=_n(tier, 6000, 150000, scale), shards=8 if tier == "quick" else 16, max_size=80, label="files generated from the documented grammar vs an independent reference parser")
+    return [graph_job("C13", "text", cl, tier, scale, 6000, 150000, "write/load round trips (labels none/int/double/string/struct, indices up to 14)", nmax=14, extra="mode roundtrip", max_size=60), tf]
+
+
+BIN_LABELS = ["i8", "u8", "i16", "u16", "i32", "u32", "i64", "u64", "f32", "f64"]
+BIN_CLASSES = "DS:none;US:none;" + ";".join("DL:%s;UL:%s" % (l, l) for l in BIN_LABELS)
+
+
+def jobs_C14(tier, scale):
+    return [graph_job("C14", "bin", BIN_CLASSES, tier, scale, 8000, 200000, "round trip + byte layout + hand-made files (11 label types x directed/undirected)", nmax=12, extra="mode roundtrip", max_size=60),
+            graph_job("C14", "bin", BIN_CLASSES, tier, scale, 220, 2200, "unopenable path: every loader and writer throws std::runtime_error", nmax=3, extra="mode badpath", max_size=10)]
+
+
+def jobs_C15_cuts(tier, scale):
+    return [graph_job("C15", "bin", BIN_CLASSES, tier, scale, 3000, 80000, "every cut offset of generated valid binary files (<= ~14 records)", nmax=5, extra="mode cuts", max_size=40)]
+
+
+def jobs_C15(tier, scale):
+    return jobs_C15_cuts(tier, scale) + jobs_C15_fuzz(tier, scale)
+
+
+def fuzz_job(executor, target, prop, tier, scale, quick, thorough, label, max_len=256, shards=None):
+    nsh = shards or (8 if tier == "quick" else 16)
+    return dict(engine="fuzz", frontend="fuzz", executor=executor, config="fuzz", replay_config="san", cases=_n(tier, quick, thorough, scale), shards=nsh,
+                extra=dict(target=target, prop=prop, max_len=max_len), label=label, timeout=3600 if tier == "quick" else 14400)
+
+
+def jobs_C15_fuzz(tier, scale):
+    return [fuzz_job("bin", "rawbin", "C15", tier, scale, 400000, 16000000, "libFuzzer: arbitrary bytes as binary edge list, oracle = prefix of complete records (half of the shards from the seed corpus, half from empty)"),
+            fuzz_job("text", "rawtext", "C15", tier, scale, 400000, 16000000, "libFuzzer: arbitrary bytes as text for index/name loader x none/string/int labels; returns or throws std::exception; differential when well-formed")]
+
+
 RULE_HIST = ("rapidcheck-generated call histories (0-%d ops, sizes 0-12) executed against the real class and an independent std::map model; "
              "all public observers compared after every step. ")
 
@@ -235,6 +270,28 @@ PROPS = {
                 "<=V+E (findAllVertexPredecessors), <=V+E+1 (findGeodesicsDijkstra, weights>=0), E = total neighbour-list length. "
                 "Non-trivial: some vertex has more shortest paths than V+E (BFS) or the graph has a tie or zero-weight cycle (Dijkstra).",
                 assumptions=["one getOutNeighbours call per neighbourhood scan (the observation the property names)"]),
+    "C13": dict(jobs=jobs_C13, min_nontrivial=dict(quick=200, thorough=2000),
+                rule="(a) generated graphs written with writeTextEdgeList and read back with loadTextEdgeList (codecs: to_string/stoi, %.17g/strtod, identity, two-field struct): size = 1+largest used "
+                "index, equal to the original after resize and equal to the model; string labels without line break and without leading blank (not expressible: the blank run is the separator). "
+                "(b) files generated from the grammar line := '#' any* | ws* tok ws+ tok (ws+ rest | ws*), ws=[ \\t]+, last line with or without newline, distinct pairs, for the index loader "
+                "and the name loader (names may contain/start with '#' when the line does not start with it); oracle = independent reference parser: edges, labels = rest of line, numbering in order of "
+                "first appearance, names[index(x)]=x. Non-trivial: round trip of a labelled graph with a self-loop and an index > 9; file with a comment line, a tab or leading blanks, a label containing "
+                "blanks and >=2 edges.", assumptions=["pairs are distinct within a file (the loader's treatment of repeated lines is not specified by the property)"]),
+    "C14": dict(jobs=jobs_C14, min_nontrivial=dict(quick=200, thorough=2000),
+                rule="generated graphs x label types {none, (u)int8/16/32/64, float, double} x directed/undirected. Oracle: (1) write/load round trip: size = 1+largest used index, equal to the original "
+                "after resize, all pairs and labels equal to the model; (2) the file's bytes equal, record for record in edges() order, LE32(src) LE32(dst) LE(label) computed with shifts, hence "
+                "length = edges x (8+sizeof label); (3) a hand-made file with the model's records in a generated order/orientation loads to the model's graph, twice identically; (4) an unopenable "
+                "path makes every loader and writer throw std::runtime_error; (5) swapBytes reverses the object representation and is an involution. "
+                "Non-trivial: multi-byte label, >=2 edges and a self-loop.",
+                assumptions=["'any host' cannot be executed on one little-endian machine: what is checked is that the bytes are the little-endian ones"]),
+    "C15": dict(jobs=lambda tier, scale: jobs_C15(tier, scale), min_nontrivial=dict(quick=200, thorough=2000), level="fault_enumeration",
+                rule="(crash points) generated valid binary files (11 label types, <=14 records) cut at EVERY byte offset 0..len: the loader either throws an exception derived from std::exception "
+                "or returns exactly the floor(cut/record) complete records (same pairs via neighbour lists, same labels, same count, size 1+largest index among them). "
+                "(arbitrary input) libFuzzer targets with the oracle inside: arbitrary bytes as a binary file (same prefix-of-complete-records oracle computed from the raw bytes; indices >= 2^16 skipped "
+                "and counted) and arbitrary bytes as text for the index and the name loader with throwing and non-throwing label parsers (outcome must be 'returns' or 'throws std::exception'; "
+                "index tokens whose value needs more than 2^16 vertices are outside the domain, -1 is inside). ASan+UBSan on. Non-trivial: a cut strictly inside a record; a text input with "
+                ">=1 line the reference parser rejects and >=1 it accepts.",
+                assumptions=["vertex indices kept small enough to allocate (documented domain restriction of the property)"]),
     "C16": dict(jobs=jobs_C16, min_nontrivial=dict(quick=300, thorough=3000),
                 rule=RULE_HIST % 80 + "Non-trivial: a forced duplicate exists and is later removed by removeDuplicateEdges or removeEdge.",
                 assumptions=["all copies of a pair carry the same label/weight/multiplicity (by construction)", "multigraph: weaker reading (deduplicated graph holds each pair once with the multiplicity its copies carried)"]),
